@@ -946,7 +946,8 @@ Fixpoint dec_desc (fuel : nat) (maxNr : Z) (bs : list N) : dres :=
                      match r with
                      | [] => DHard
                      | cv :: r1 =>
-                         if 1 <? size then
+                         if size =? 0 then DSoft      (* "SLConfigDescriptor size 0 too small" (repo commit 89e24df) *)
+                         else if 1 <? size then
                            match rd_bytes64 (size - 1) r1 with Some (more, r') => DOk (DSlc nb cv more) [raw] r' | None => DHard end
                          else DOk (DSlc nb cv []) [raw] r1
                      end
